@@ -388,6 +388,8 @@ func genCanonMarkupDoc(r *RNG, k int) markupDoc {
 	if srcMask&2 != 0 {
 		so.on = true
 		so.typ = "Article"
+		relAuthor := false
+		_ = relAuthor
 		var sb strings.Builder
 		typ := []string{"Article", "NewsArticle", "BlogPosting", "ScholarlyArticle", "TechArticle"}[r.Intn(5)]
 		sb.WriteString(`<div itemscope itemtype="http://schema.org/` + typ + `">`)
@@ -441,6 +443,14 @@ func genCanonMarkupDoc(r *RNG, k int) markupDoc {
 		case 3:
 			sb.WriteString(`<div itemprop="author" itemscope itemtype="https://schema.org/Person"><span itemprop="name">` + m.tok("SOUNS") + `</span></div>`)
 		}
+		itemAuthor := so.author // the article record names the item's own author / creator only
+		if so.author == "" && r.Intn(2) == 0 {
+			// rel=author: the first element that has text names the author
+			so.author = m.tok("SOREL")
+			m.add("so", true, `<link rel="author" href="/people/1">`)
+			m.add("so", false, `<p><a rel="author" href="/people/1"><img src="/avatar.png" alt=""></a> <a rel="author" href="/people/1">`+so.author+`</a> <a rel="author" href="/people/2">`+m.tok("SOREL")+`</a></p>`)
+			relAuthor = true
+		}
 		year := ""
 		if p(2) {
 			year = fmt.Sprint(1990 + r.Intn(30))
@@ -465,8 +475,8 @@ func genCanonMarkupDoc(r *RNG, k int) markupDoc {
 			art.Section = m.tok("SOSEC")
 			sb.WriteString(`<span itemprop="articleSection">` + art.Section + `</span>`)
 		}
-		if so.author != "" {
-			art.Authors = []string{so.author}
+		if itemAuthor != "" {
+			art.Authors = []string{itemAuthor}
 		}
 		so.article = art
 		sb.WriteString(`</div>`)
@@ -498,13 +508,21 @@ func genCanonMarkupDoc(r *RNG, k int) markupDoc {
 		}
 		if p(2) {
 			ie.publisher = m.tok("IEP")
-			m.add("ie", false, `<div publisher="`+ie.publisher+`">z</div>`)
+			if r.Intn(2) == 0 {
+				m.add("ie", false, `<font publisher="`+ie.publisher+`" color="gray">z</font>`) // an element the converter rewrites
+			} else {
+				m.add("ie", false, `<div publisher="`+ie.publisher+`">z</div>`)
+			}
 		}
 		if p(2) {
 			u := "http://ie.example/" + m.tok("i") + ".png"
 			cap := m.tok("IECAP")
 			ie.images = []data.MarkupImage{{URL: u, Caption: cap, Width: 600, Height: 400}}
-			m.add("ie", false, `<figure><img src="`+u+`" width="600" height="400"><figcaption>`+cap+`</figcaption></figure>`)
+			lazy := ""
+			if r.Intn(2) == 0 {
+				lazy = ` data-src="http://lazy.example/other.png"` // the document's src is what the metadata reports
+			}
+			m.add("ie", false, `<figure><img src="`+u+`"`+lazy+` width="600" height="400"><figcaption>`+cap+`</figcaption></figure>`)
 		}
 		ie.article = &data.MarkupArticle{PublishedTime: date}
 		if ie.author != "" {
